@@ -399,6 +399,34 @@ func (m *streeModel) ruleNavTable(c *Ctx, rows [][3]string) {
 	for _, r := range rows {
 		recv, fname, want := r[0], r[1], r[2]
 		fn := P.Func("stree", recv, fname)
+		if fn == nil && fname == "popMinRight" {
+			// by role; when it takes the link to start from (popMin(&n.right)) the first side is chosen at the
+			// call site: the argument must be the address of the large-side link, and inside only the small side
+			// is followed before the removed node's large side is read
+			if fn = m.successorPop(); fn != nil && len(fn.Params) == 1 {
+				if pt, ok := fn.Params[0].Type().Underlying().(*types.Pointer); ok {
+					if _, isPP := pt.Elem().Underlying().(*types.Pointer); isPP {
+						okSite := false
+						if rm := P.Func("stree", "node", "remove"); rm != nil {
+							allInstrs(rm, func(in ssa.Instruction) {
+								if call, ok := in.(*ssa.Call); ok && origin(staticCallee(&call.Call)) == fn && len(call.Call.Args) == 1 {
+									if fa, ok := call.Call.Args[0].(*ssa.FieldAddr); ok {
+										if _, f := fieldVarOf(fa); sameField(f, m.large) {
+											okSite = true
+										}
+									}
+								}
+							})
+						}
+						name := fnName(fn)
+						c.sawFn(name)
+						got := strings.Join(m.loadSig(fn), ",")
+						c.judge(okSite && got == "small,large", "R-ORIENT", name+":sides", fn.Pos(), "starts from the large-side link (call site), follows the small side, re-attaches the large side", fmt.Sprintf("the successor is looked for from a link other than the large side, or the walk reads sides [%s] where [small,large] is needed", got))
+						continue
+					}
+				}
+			}
+		}
 		if fn == nil {
 			c.undecided("ANCHOR", "stree."+fname, 0, "not found")
 			continue
@@ -1230,8 +1258,7 @@ func runC04(c *Ctx) {
 
 // ---- R-RELINK: popMinRight re-attaches the removed node's large-side subtree
 func (m *streeModel) ruleRelink(c *Ctx) {
-	P := c.P
-	fn := P.Func("stree", "", "popMinRight")
+	fn := m.successorPop()
 	if fn == nil {
 		c.undecided("ANCHOR", "stree.popMinRight", 0, "not found")
 		return
@@ -2652,4 +2679,32 @@ func (m *streeModel) ruleTreeAccessors(c *Ctx) {
 			c.judge(eq, "R-CURSOR-EQUAL", fmt.Sprintf("stree.(*Tree).Cursor:positioned cursor #%d", n), st.Pos(), "only under compare(...) == 0", fmt.Sprintf("a positioned cursor is handed out where the comparison of the last path node with the key is only known to be %s: absent keys get a valid cursor on a neighbouring key", other))
 		})
 	}
+}
+
+// successorPop: the helper that unlinks the in-order successor for a two-children removal — by name, or by role: the
+// package-level function of stree that node.remove calls and that hands back a node.
+func (m *streeModel) successorPop() *ssa.Function {
+	P := m.P
+	if fn := P.Func("stree", "", "popMinRight"); fn != nil {
+		return fn
+	}
+	rm := P.Func("stree", "node", "remove")
+	if rm == nil {
+		return nil
+	}
+	var found *ssa.Function
+	allInstrs(rm, func(in ssa.Instruction) {
+		call, ok := in.(*ssa.Call)
+		if !ok {
+			return
+		}
+		cal := origin(staticCallee(&call.Call))
+		if cal == nil || cal == rm || cal.Blocks == nil || cal.Pkg != rm.Pkg || cal.Signature.Recv() != nil || cal.Signature.Results().Len() != 1 {
+			return
+		}
+		if isNamedOrigin(cal.Signature.Results().At(0).Type(), m.nodeT) {
+			found = cal
+		}
+	})
+	return found
 }
